@@ -432,6 +432,7 @@ func genC07(g *G) {
 }
 
 func genC18(g *G) {
+	genGenVrf(g)
 	n := 12
 	if g.thorough {
 		n = 400
